@@ -77,6 +77,7 @@ structure InstW where
   candidateSince : Nat := 0     -- latest of: Start, last loss of leadership, healing of a partition
   stoppedSince : Option Nat := none   -- a stop returned ok at that time and no Start was called since
   takeoverLateReported : Bool := false
+  opsDuringStop : List (Nat × String × Nat) := []   -- store operations (op, issuing function, time) issued while a stop call was in progress
   runToks : List Nat := []            -- tokens this instance put into store calls issued since its last Start
   lastStaleWev : Nat := 0             -- latest delivery of a watch notification older than the record it describes
   stopCalledSince : Option Nat := none
